@@ -2,7 +2,12 @@
 # MANIFEST.setup_cmd: build the framework from files on disk only (offline).
 set -e
 cd "$(dirname "$0")/.."
-export GOFLAGS=-mod=mod GOPROXY=off GOSUMDB=off GOTOOLCHAIN=local
-( cd harness && cp /repo/go.sum . 2>/dev/null || true; go build -o ../bin/goextract ./cmd/goextract )
-bin/goextract /repo lean/UgoVerif/Gen || true
-( cd lean && lake build UgoVerif ugomodel 2>&1 | grep -v '^trace' | tail -5 )
+export GOFLAGS=-mod=mod GOPROXY=off GOSUMDB=off GOTOOLCHAIN=local CGO_ENABLED=0
+REPO="${UGO_REPO:-/repo}"
+mkdir -p work
+sed "s#replace github.com/ozanh/ugo => .*#replace github.com/ozanh/ugo => $REPO#" harness/go.mod > work/harness.mod
+cp "$REPO/go.sum" work/harness.sum 2>/dev/null || true
+( cd harness && go build -modfile ../work/harness.mod -o ../bin/goextract ./cmd/goextract )
+bin/goextract "$REPO" lean/UgoVerif/Gen || true
+( cd lean && lake build UgoVerif UgoVerif.AuditLib ugomodel 2>&1 | grep -v '^trace' | tail -5 )
+( cd harness && go build -modfile ../work/harness.mod -tags verif -o ../bin/corr ./cmd/corr )
